@@ -78,7 +78,7 @@ def positions(a):
     return [(type(n).__name__, n.lineno, n.col_offset, n.end_lineno, n.end_col_offset) for n in ast.walk(a) if hasattr(n, 'end_col_offset')]
 
 
-def make_letter_fn(name: str, src: str, script, queries=None):
+def make_letter_fn(name: str, src: str, script, queries=None, validate=None):
     """script(root) performs edits (same code for the marker run and the symbolic run) and may return a root to judge
     (default: the root it was given). queries(root) -> list of (label, value) read-only answers compared as re-lettered."""
     L = Lettered(src)
@@ -95,6 +95,8 @@ def make_letter_fn(name: str, src: str, script, queries=None):
                 reset_globals()
                 g2 = script(g) or g
                 o_parse(g2, f'letter.{name}.marker_run', 'exec' if isinstance(g2.a, ast.Module) else 'eval')
+                if validate is not None:
+                    validate(g2, f'letter.{name}.marker_run')     # independent (CPython) judgement of the marker answers
                 ref['pos'] = positions(g2.a)
                 ref['q'] = queries(g2) if with_q else []
                 ref['lines'] = [str(l) for l in g2._lines]
@@ -148,8 +150,8 @@ FN = ['fst.astutil.bistr.c2b', 'fst.astutil.bistr.b2c', 'fst.fst_core._put_src',
       'fst.fst.FST.loc', 'fst.fst.FST.pars']
 
 
-def letter_cell(prefix, name, src, script, queries=None, tier='quick', budget=400):
-    fn, L = make_letter_fn(name, src, script, queries)
+def letter_cell(prefix, name, src, script, queries=None, tier='quick', budget=400, validate=None):
+    fn, L = make_letter_fn(name, src, script, queries, validate)
     return Cell(f'{prefix}.letter[{name}]', fn, 'T', FN,
                 f'carrier {src!r}: each of the {L.k} marker characters ranges over EVERY Unicode scalar value >= U+0080 (all UTF-8 widths 2-4); '
                 'fixed operation script; source text and all node positions compared symbolically',
